@@ -79,6 +79,10 @@ def gen_scenarios(ctx, n):
                     r['seq'] = (r['seq'] + 1) % 65536
                 seen.add((r['v'], r['ident'], r['seq']))
             sc = dict(mtu=1500, bursts=[b0, b1], ctl=[dict(stall=True, rmaddr=gone), dict()])
+        elif s % 4 == 2:
+            # a link with a transmit queue (frames are kept by reference, as protocol/link/channel keeps them, and go out after the
+            # burst): every reply must still be the one the replier built, whatever was built after it
+            sc['ctl'] = [dict(queue=True) for _ in bursts]
         out.append(sc)
     return out
 
